@@ -106,8 +106,14 @@ end
 
 /-! ### shape functions of `serialize_val` -/
 
+/-- what `for x in val` yields when a collection serializer is handed `val`: the elements of a
+    sequence / set, but also the KEYS of a dict and the characters of a string (a mis-typed value
+    can reach a typed serializer through a multi-field wrapper option whose `_validate` only looks
+    at the container type) -/
 def seqLike : PyVal → Option (List PyVal)
   | .list xs | .deque xs | .set _ xs | .tuple xs => some xs
+  | .dict kvs => some (kvs.map (·.1))
+  | .str s => some (s.toList.map fun c => PyVal.str (String.singleton c))
   | _ => none
 
 /-- collections serialize to a JSON array through the element serializer -/
